@@ -284,6 +284,7 @@ def run(prog, chk):
     double_rotation_table(prog, chk)
     slots_by_reference(prog, chk)
     parent_slot_by_identity(prog, chk, "C01.o")
+    C.assignment_discards_old(prog, chk, "C01.p", TREE)
     balance_bookkeeping(prog, chk)
     C.parent_pairing(prog, chk, "C01.h", TREE)
     from .. import containers
